@@ -96,7 +96,13 @@ pub fn observe_sm(sm: &SourceMap) -> ObsMap {
         sources: sm.sources().map(str::to_string).collect(),
         names: sm.names().map(str::to_string).collect(),
         contents: sm.source_contents().map(|c| c.map(str::to_string)).collect(),
-        ignore: sm.ignore_list().cloned().collect(),
+        ignore: {
+            // reported as a set: no statement orders the ignore list
+            let mut v: Vec<u32> = sm.ignore_list().cloned().collect();
+            v.sort_unstable();
+            v.dedup();
+            v
+        },
         tokens: observe_tokens(sm),
         scopes: vec![],
         token_count: sm.get_token_count(),
